@@ -367,7 +367,7 @@ fn read_real(l: &Log) -> Result<Real, String> {
         let (first, last) = (l.first_index(), l.last_index());
         let ents = match l.slice(first, last + 1, None, ctx()) { Ok(v) => to_e3(&v), Err(e) => panic!("slice(first,last+1) answers error {}", err_code(&e)) };
         let (sf, sl) = (l.store.first_index().unwrap(), l.store.last_index().unwrap());
-        let sents = if sl < sf { vec![] } else { to_e3(&l.store.entries(sf, sl + 1, None, ctx()).unwrap()) };
+        let sents = to_e3(&l.store.entries(sf, sl + 1, None, ctx()).unwrap()); // Ok([]) on an empty store since /repo 9c2e6d6
         Real { committed: l.committed, applied: l.applied, persisted: l.persisted, limit: l.max_apply_unpersisted_log_limit,
             first, last, ents, offset: l.unstable.offset,
             snap: l.unstable.snapshot.as_ref().map(|s| (s.get_metadata().index, s.get_metadata().term)),
